@@ -117,13 +117,13 @@ theorem steps_ifPrologue (g : Globals) (cond : IfCond) (dup isElse : Bool) (labe
   cases labelEnd with
   | some l =>
     dsimp only
-    exact (h3.trans (esteps_ifCondCalc g cond lb le l isElse s3).toSteps).tail (Step.ctl _ _ rfl rfl rfl)
+    exact (h3.trans (esteps_ifCondCalc g cond lb le l isElse s3).toSteps).tail (Step.ctl _ _ rfl rfl rfl rfl)
   | none =>
     dsimp only
     have h4 := h3.trans (steps_probeLabel "if_end".toList s3)
     generalize s3.probeLabel "if_end".toList = p3 at h4
     obtain ⟨ln, s4⟩ := p3
-    exact (h4.trans (esteps_ifCondCalc g cond lb le ln isElse s4).toSteps).tail (Step.ctl _ _ rfl rfl rfl)
+    exact (h4.trans (esteps_ifCondCalc g cond lb le ln isElse s4).toSteps).tail (Step.ctl _ _ rfl rfl rfl rfl)
 
 theorem steps_ifAfterBody (isElse r : Bool) (lElse lEnd : Name) (s : St) :
     Steps s (ifAfterBody isElse r lElse lEnd s).2 := by
@@ -131,27 +131,27 @@ theorem steps_ifAfterBody (isElse r : Bool) (lElse lEnd : Name) (s : St) :
   dsimp only
   have h0 : Steps s (if r then s else s.push (.jumpTo lEnd)) := by
     cases r
-    · exact Steps.single (Step.ctl _ _ rfl rfl rfl)
+    · exact Steps.single (Step.ctl _ _ rfl rfl rfl rfl)
     · exact Steps.refl _
   generalize (if r then s else s.push (.jumpTo lEnd)) = s0 at h0
   have h1 : Steps s (if isElse then s0.push (.setLabel lElse) else s0) := by
     cases isElse
     · exact h0
-    · exact h0.tail (Step.ctl _ _ rfl rfl rfl)
+    · exact h0.tail (Step.ctl _ _ rfl rfl rfl rfl)
   exact h1.tail (Step.leave _)
 
 theorem steps_ifAfterElse (k : Nat) (r : Bool) (lEnd : Name) (s : St) : Steps s (ifAfterElse k r lEnd s) := by
   unfold ifAfterElse
   dsimp only
   cases r
-  · exact (Steps.single (Step.leave _)).tail (Step.ctlVia _ _ _ rfl rfl rfl)
+  · exact (Steps.single (Step.leave _)).tail (Step.ctlVia _ _ _ rfl rfl rfl rfl)
   · exact Steps.single (Step.leave _)
 
 theorem steps_ifEpilogue (k : Nat) (labelEnd : Option Name) (lEnd : Name) (s : St) :
     Steps s (ifEpilogue k labelEnd lEnd s) := by
   unfold ifEpilogue
   cases labelEnd
-  · exact Steps.single (Step.ctlVia _ _ _ rfl rfl rfl)
+  · exact Steps.single (Step.ctlVia _ _ _ rfl rfl rfl rfl)
   · exact Steps.refl _
 
 theorem steps_loopPrologue (s : St) : Steps s (loopPrologue s).2.2 := by
@@ -164,20 +164,20 @@ theorem steps_loopPrologue (s : St) : Steps s (loopPrologue s).2.2 := by
   have h3 := h2.trans (steps_probeLabel "loop_end".toList s2)
   generalize s2.probeLabel "loop_end".toList = p2 at h3
   obtain ⟨le, s3⟩ := p2
-  exact (h3.tail (Step.ctl _ _ rfl rfl rfl)).tail (Step.ctl _ _ rfl rfl rfl)
+  exact (h3.tail (Step.ctl _ _ rfl rfl rfl rfl)).tail (Step.ctl _ _ rfl rfl rfl rfl)
 
 theorem steps_loopEpilogue (r : Bool) (lb le : Name) (s : St) : Steps s (loopEpilogue r lb le s) := by
   unfold loopEpilogue
   dsimp only
   cases r
-  · exact ((Steps.single (Step.ctl _ _ rfl rfl rfl)).tail (Step.ctl _ _ rfl rfl rfl)).tail (Step.leave _)
+  · exact ((Steps.single (Step.ctl _ _ rfl rfl rfl rfl)).tail (Step.ctl _ _ rfl rfl rfl rfl)).tail (Step.leave _)
   · exact Steps.single (Step.leave _)
 
 theorem steps_nestedReturn (g : Globals) (e : Expr) (s : St) : Steps s (nestedReturn g e s).1 := by
   obtain ⟨s1, h1, h | ⟨r, h⟩⟩ := esteps_nestedReturn_pre g e s
   · rw [h]; exact h1.toSteps
   · rw [h]
-    exact (h1.toSteps.tail (Step.e (EStep.emit _ _ rfl rfl rfl (by intro v hv; simp [Instr.usesValue] at hv)))).tail (Step.setReturn _)
+    exact (h1.toSteps.tail (Step.emitRet _ _ rfl rfl rfl rfl rfl)).tail (Step.setReturn _)
 
 theorem steps_loopWrap (k : Name → Name → Bool → Bool → Bool → St → St × Bool)
     (hk : ∀ lb le rc bc cc s, Steps s (k lb le rc bc cc s).1) (s : St) : Steps s (loopWrap k s) := by
@@ -267,8 +267,8 @@ theorem steps_ifLoopBody (g : Globals) : ∀ (l : List IfLoopStmt) (lEnd lb le :
       generalize nestedReturn g e s0 = q at h1
       obtain ⟨s1, r⟩ := q
       exact h1.trans (steps_ifLoopBody g tl lEnd lb le (rc || r) bc cc s1)
-    | cont => exact (h0.tail (Step.ctl _ _ rfl rfl rfl)).trans (steps_ifLoopBody g tl lEnd lb le rc bc true _)
-    | brk => exact (h0.tail (Step.ctl _ _ rfl rfl rfl)).trans (steps_ifLoopBody g tl lEnd lb le rc true cc _)
+    | cont => exact (h0.tail (Step.ctl _ _ rfl rfl rfl rfl)).trans (steps_ifLoopBody g tl lEnd lb le rc bc true _)
+    | brk => exact (h0.tail (Step.ctl _ _ rfl rfl rfl rfl)).trans (steps_ifLoopBody g tl lEnd lb le rc true cc _)
 theorem steps_loopBody (g : Globals) : ∀ (l : List LoopStmt) (lb le : Name) (rc bc cc : Bool) (s : St),
     Steps s (loopBody g l lb le rc bc cc s).1
   | [], _, _, _, _, _, s => by unfold loopBody; exact Steps.refl _
@@ -289,8 +289,8 @@ theorem steps_loopBody (g : Globals) : ∀ (l : List LoopStmt) (lb le : Name) (r
       generalize nestedReturn g e s0 = q at h1
       obtain ⟨s1, r⟩ := q
       exact h1.trans (steps_loopBody g tl lb le (rc || r) bc cc s1)
-    | brk => exact (h0.tail (Step.ctl _ _ rfl rfl rfl)).trans (steps_loopBody g tl lb le rc true cc _)
-    | cont => exact (h0.tail (Step.ctl _ _ rfl rfl rfl)).trans (steps_loopBody g tl lb le rc bc true _)
+    | brk => exact (h0.tail (Step.ctl _ _ rfl rfl rfl rfl)).trans (steps_loopBody g tl lb le rc true cc _)
+    | cont => exact (h0.tail (Step.ctl _ _ rfl rfl rfl rfl)).trans (steps_loopBody g tl lb le rc bc true _)
 end
 
 end SemVerif
@@ -305,8 +305,8 @@ theorem esteps_checkTypeExists (g : Globals) (t : Ty) (n : Name) (s : St) : ESte
     · exact ESteps.refl _
     · exact ESteps.single (EStep.addErr _ _ _ _ _)
 
-theorem esteps_fnReturnTail (g : Globals) (resTy : Ty) (e : Expr) (r : ExprResult) (s : St) :
-    ESteps s (fnReturnTail g resTy e r s) := by
+theorem steps_fnReturnTail (g : Globals) (resTy : Ty) (e : Expr) (r : ExprResult) (s : St) :
+    Steps s (fnReturnTail g resTy e r s) := by
   unfold fnReturnTail
   dsimp only
   have h3 := esteps_checkTypeExists g r.ty e.show s
@@ -317,11 +317,14 @@ theorem esteps_fnReturnTail (g : Globals) (resTy : Ty) (e : Expr) (r : ExprResul
     · exact h3
   generalize (if resTy ≠ r.ty then s3.addErr .wrongReturnType e.show 1 0 else s3) = s4 at h4
   split
-  · exact h4.tail (EStep.emit _ _ rfl rfl rfl (by intro v hv; simp [Instr.usesValue] at hv))
-  · exact h4.tail (EStep.emit _ _ rfl rfl rfl (by intro v hv; simp [Instr.usesValue] at hv))
+  · exact h4.toSteps.tail (Step.emitRet _ _ rfl rfl rfl rfl rfl)
+  · exact h4.toSteps.tail (Step.emitRet _ _ rfl rfl rfl rfl rfl)
 
-theorem esteps_fnReturn (g : Globals) (resTy : Ty) (e : Expr) (rc : Bool) (s : St) :
-    ESteps s (fnReturn g resTy e rc s).1 := by
+/-- a function-level return is an expression-level chain, optionally followed by the push of the return instruction -/
+theorem fnReturn_split (g : Globals) (resTy : Ty) (e : Expr) (rc : Bool) (s : St) :
+    ∃ s2, ESteps s s2 ∧ (fnReturn g resTy e rc s = (s2, rc) ∨
+      ∃ r, fnReturn g resTy e rc s =
+        (if s2.cur.manualReturn then s2.push (.fnReturnWithLabel r) else s2.push (.fnReturn r), true)) := by
   unfold fnReturn
   have h1 := em_exprM g e s
   cases he : exprM g e s with
@@ -334,8 +337,35 @@ theorem esteps_fnReturn (g : Globals) (resTy : Ty) (e : Expr) (rc : Bool) (s : S
       · exact h1.tail (EStep.addErr _ _ _ _ _)
     generalize (if rc then s1.addErr .returnAlreadyCalled e.show 1 0 else s1) = s2 at h2
     cases a with
-    | none => exact h2
-    | some r => exact h2.trans (esteps_fnReturnTail g resTy e r s2)
+    | none => exact ⟨s2, h2, Or.inl rfl⟩
+    | some r =>
+      dsimp only
+      unfold fnReturnTail
+      dsimp only
+      have h3 := h2.trans (esteps_checkTypeExists g r.ty e.show s2)
+      generalize (checkTypeExists g r.ty e.show s2).2 = s3 at h3
+      have h4 : ESteps s (if resTy ≠ r.ty then s3.addErr .wrongReturnType e.show 1 0 else s3) := by
+        split
+        · exact h3.tail (EStep.addErr _ _ _ _ _)
+        · exact h3
+      exact ⟨_, h4, Or.inr ⟨r, rfl⟩⟩
+
+theorem steps_fnReturn (g : Globals) (resTy : Ty) (e : Expr) (rc : Bool) (s : St) :
+    Steps s (fnReturn g resTy e rc s).1 := by
+  unfold fnReturn
+  have h1 := em_exprM g e s
+  cases he : exprM g e s with
+  | mk a s1 =>
+    rw [he] at h1
+    dsimp only
+    have h2 : ESteps s (if rc then s1.addErr .returnAlreadyCalled e.show 1 0 else s1) := by
+      cases rc
+      · exact h1
+      · exact h1.tail (EStep.addErr _ _ _ _ _)
+    generalize (if rc then s1.addErr .returnAlreadyCalled e.show 1 0 else s1) = s2 at h2
+    cases a with
+    | none => exact h2.toSteps
+    | some r => exact h2.toSteps.trans (steps_fnReturnTail g resTy e r s2)
 
 theorem steps_bodyStmts (g : Globals) (resTy : Ty) : ∀ (l : List BodyStmt) (rc : Bool) (s : St),
     Steps s (bodyStmts g resTy l rc s).1
@@ -353,13 +383,13 @@ theorem steps_bodyStmts (g : Globals) (resTy : Ty) : ∀ (l : List BodyStmt) (rc
     | loop b => exact (h0.trans (steps_loopWrap _ (steps_loopBody g b) s0)).trans (steps_bodyStmts g resTy tl rc _)
     | expr e =>
       dsimp only
-      have h1 := h0.trans (esteps_fnReturn g resTy e rc s0).toSteps
+      have h1 := h0.trans (steps_fnReturn g resTy e rc s0)
       generalize fnReturn g resTy e rc s0 = q at h1
       obtain ⟨s1, r⟩ := q
       exact h1.trans (steps_bodyStmts g resTy tl r s1)
     | ret e =>
       dsimp only
-      have h1 := h0.trans (esteps_fnReturn g resTy e rc s0).toSteps
+      have h1 := h0.trans (steps_fnReturn g resTy e rc s0)
       generalize fnReturn g resTy e rc s0 = q at h1
       obtain ⟨s1, r⟩ := q
       exact h1.trans (steps_bodyStmts g resTy tl r s1)
